@@ -255,6 +255,9 @@ def gen_text_mutants(repo):
         ("rules.py", "        if \"shared_data\" in kwargs:\n            return out, kwargs[\"shared_data\"]", "        out = {k: v for k, v in out.items() if v}\n        if \"shared_data\" in kwargs:\n            return out, kwargs[\"shared_data\"]", {"C13"}, "rule-writer-drops-falsy-entries", "Rule.to_json_like"),
         ("rules.py", "            if path_exists:\n                for datum, datum_path in sub_data:", "            if True:\n                for datum, datum_path in sub_data or []:", {"C07", "C15"}, "cast-loop-unguarded", None),
         ("schema.py", "path_str = tuple(str(i) for i in rule.path.parts)  # use as a dict key", "path_str = tuple(str(i) for i in path_simple)  # use as a dict key", {"C20"}, "node-identity-from-simplified-path", None),
+        # after the fourth round of refactorings
+        ("conditions.py", "if data_has_paths:\n                datum, _ = datum", "if data_has_paths:\n                datum, _ = datum\n            if processed and datum == processed[-1]:\n                pre_processor_error.append(pre_processor_error[-1])\n                callable_error.append(callable_error[-1])\n                callable_false.append(callable_false[-1])\n                processed.append(processed[-1])\n                continue", {"C01"}, "item-reuses-previous-record", None),
+        ("conditions.py", "                    spec_val = INV_DTYPE_LOOKUP[spec_val]\n", "                    spec_val = next(v for k, v in INV_DTYPE_LOOKUP.items() if issubclass(spec_val, k))\n", {"C11"}, "type-named-by-subclass-walk", None),
         ("conditions.py", "    MalformedDataPathSpec,\n", "    MalformedDataPathSpec,\n    NotADataPathSpec as _unused_alias,\n", set(), "import-alias-added", "neutral"),
     ]
     for e in edits:
